@@ -103,6 +103,8 @@ class STIXdatetime(dt.datetime):
                 dttm.year, dttm.month, dttm.day, dttm.hour, dttm.minute,
                 dttm.second, dttm.microsecond, dttm.tzinfo,
             )
+            # which of the two instants an ambiguous local time denotes
+            kwargs.setdefault("fold", dttm.fold)
         # self will be an instance of STIXdatetime, not dt.datetime
         self = dt.datetime.__new__(cls, *args, **kwargs)
         self.precision = precision
@@ -256,6 +258,17 @@ def parse_into_datetime(
             if ts.tzinfo is None or ts.tzinfo.utcoffset(ts) is None:
                 # timezone-naive; assume UTC (as format_datetime() does)
                 ts = pytz.utc.localize(ts)
+            else:
+                # Convert to UTC now: the precision is that of the UTC value
+                # (offsets may have a sub-second part), and the conversion
+                # honours "fold", which the copy made below does not carry.
+                try:
+                    ts = ts.astimezone(pytz.utc)
+                except OverflowError:
+                    raise ValueError(
+                        "the UTC value of the timestamp is outside years 1 "
+                        "to 9999",
+                    )
         else:
             # Add a time component
             ts = dt.datetime.combine(value, dt.time(0, 0, tzinfo=pytz.utc))
